@@ -19,7 +19,7 @@ type jumpCtx struct {
 	isSwitch  bool
 	breaks    []*State
 	continues []*State
-	gotoLabel string // label of the first statement of the loop body (goto L == continue)
+	gotoLabel string              // label of the first statement of the loop body (goto L == continue)
 	fwd       map[string][]*State // forward gotos to labels of a statement list
 	passed    []string
 }
@@ -46,6 +46,7 @@ type Fx struct {
 	pendingLabel string
 	litVals      map[*ast.FuncLit]string
 	curPos       token.Pos
+	loadKey      string
 }
 
 type unsupported struct{ msg string }
